@@ -393,6 +393,11 @@ func search(seed uint64, n, nt, nh, exh int) {
 	}
 	r := hx.NewRng(seed ^ 0x5EA17)
 	for i := 0; i < n; i++ {
+		if i%3 == 1 {
+			// an earlier, unrelated call whose io.Writer failed after k bytes must not influence this one (writer
+			// objects recycled between calls, sticky error state ...): the list check below runs right after it
+			faultyWrite(r, genMsgs(r, 1, 4, true))
+		}
 		checkList(genMsgs(r, 1, 6, true))
 	}
 	rt := hx.NewRng(seed ^ 0x7EA17)
@@ -431,5 +436,31 @@ func main() {
 		fmt.Fprintln(os.Stderr, "unknown sub-command")
 		out.Flush()
 		os.Exit(2)
+	}
+}
+
+// failAfter is an io.Writer that accepts k bytes and then fails.
+type failAfter struct{ k int }
+
+func (f *failAfter) Write(p []byte) (int, error) {
+	if len(p) <= f.k {
+		f.k -= len(p)
+		return len(p), nil
+	}
+	n := f.k
+	f.k = 0
+	return n, fmt.Errorf("injected write fault")
+}
+
+// faultyWrite: WriteSEIMessages into a writer that fails early; the outcome must be an error (or a short success),
+// never a panic - and, above all, the NEXT call must behave as if this one had never happened.
+func faultyWrite(r *hx.Rng, ms []*rawMsg) {
+	l := make([]sei.SEIMessage, len(ms))
+	for i, m := range ms {
+		l[i] = m
+	}
+	evals++
+	if p := hx.Try(func() { _ = sei.WriteSEIMessages(&failAfter{k: r.Intn(6)}, l) }); p != "" {
+		fail("sei.WriteSEIMessages", "panic-on-write-fault", msgsString(ms), "panic when the io.Writer fails: "+p)
 	}
 }
